@@ -7,8 +7,8 @@
    Lua integers: in_i64, wrap64 (two's complement wrap), u64 (unsigned reading). *)
 From C17 Require Import Model Model2 Model3 Proofs ProofsLib ProofsArith ProofsMul ProofsBits ProofsConv ProofsShift
   ProofsMisc ProofsSudiv ProofsDiv ProofsSigned ProofsDiv2 ProofsDiv3 ProofsPow ProofsText ProofsText2 ProofsText3
-  ProofsMixed ProofsBytes.
-From C17 Require Import Model4.
+  ProofsMixed ProofsBytes ProofsReject ProofsObj.
+From C17 Require Import Model4 ModelObj.
 Local Open Scope Z_scope.
 
 (* ---- ring operations ---- *)
@@ -198,6 +198,18 @@ Theorem C17_frombase_exact : forall base sg cs, 2 <= base <= 36 -> sign_ok sg ->
 Proof. exact frombase_correct. Qed.
 Print Assumptions C17_frombase_exact.
 
+(* exactly which strings frombase accepts (strings without white space; with white space the short-string path
+   goes through the VM's tonumber, which skips it: correspondence only): core_ok = optional sign then one or more
+   alphanumeric digits below the base; everything else - a digit at or above the base, an inner sign, an empty
+   digit part, any other character - is nil *)
+Theorem C17_frombase_accepts : forall base s, 2 <= base <= 36 -> no_space s ->
+  (core_ok base s = true ->
+     exists sg cs x, s = sg ++ cs /\ sign_ok sg /\ cs <> [] /\ Forall (char_ok base) cs /\
+       frombase s base = Ok x /\ wf x /\ uval x = (sign_val sg * dval base (map cval cs)) mod 2 ^ BINT_BITS) /\
+  (core_ok base s = false -> frombase s base = Err ENone).
+Proof. exact frombase_accepts. Qed.
+Print Assumptions C17_frombase_accepts.
+
 Theorem C17_text_badbase : forall x s base uo, ~ (2 <= base <= 36) ->
   tobase x base uo = Err ENone /\ frombase s base = Err ENone.
 Proof. exact (fun x s base uo H => conj (tobase_badbase x base uo H) (frombase_badbase s base H)). Qed.
@@ -328,3 +340,65 @@ Theorem C17_todecsci_exact : forall v forcefract, wf v ->
              canon 10 ds (Z.abs (sval v)).
 Proof. exact todecsci_int_correct. Qed.
 Print Assumptions C17_todecsci_exact.
+
+(* ---- objects: bints are mutable tables.  ModelObj.v writes every public function as the allocations and
+   in-place updates the Lua code performs (s: the heap of bint objects, references are indices).
+   sext s s': every object of s is still in s' with the same limbs;  fresh_res s (s', r) v: sext s s', the
+   returned object r did not exist in s, and it holds v.  So: no public function changes an operand, and
+   results never alias operands - except tobint/parse without clone, compress of a value that does not fit
+   a Lua integer, and brol/bror with a count that is a multiple of the width, which return x itself. ---- *)
+Theorem C17_objects_unary : forall s x,
+  fresh_res s (o_new s x) (oget s x) /\
+  fresh_res s (o_tobint s x true) (oget s x) /\ o_tobint s x false = (s, x) /\
+  fresh_res s (o_abs s x) (babs (oget s x)) /\
+  fresh_res s (o_inc s x) (binc (oget s x)) /\ fresh_res s (o_dec s x) (bdec (oget s x)) /\
+  fresh_res s (o_bnot s x) (bnot (oget s x)) /\ fresh_res s (o_neg s x) (bunm (oget s x)).
+Proof. exact obj_unary. Qed.
+Print Assumptions C17_objects_unary.
+
+Theorem C17_objects_binary : forall s x y, (x < length s)%nat -> (y < length s)%nat ->
+  (forall f, fresh_res s (o_bin f s x y) (f (oget s x) (oget s y))) /\
+  (forall f, fresh_res s (o_bit f s x y) (f (oget s x) (oget s y))) /\
+  fresh_res s (o_max s x y) (bmax (oget s x) (oget s y)) /\
+  fresh_res s (o_min s x y) (bmin (oget s x) (oget s y)).
+Proof. exact obj_binary. Qed.
+Print Assumptions C17_objects_binary.
+
+Theorem C17_objects_shift_rotate : forall s x n, (x < length s)%nat ->
+  (forall left v, shift_fuel 2 left (oget s x) n = Some v -> fresh_res s (o_shift left s x n) v) /\
+  (forall v, bwrap (oget s x) n = Some v -> fresh_res s (o_bwrap s x n) v) /\
+  (forall left, imod_bits n = 0 -> o_rot left s x n = (s, x)) /\
+  (forall left a b, imod_bits n <> 0 ->
+     shift_fuel 2 left (oget s x) (imod_bits n) = Some a ->
+     shift_fuel 2 (negb left) (oget s x) (lsub BINT_BITS (imod_bits n)) = Some b ->
+     fresh_res s (o_rot left s x n) (bor a b)).
+Proof.
+  exact (fun s x n H => conj (proj1 (obj_shift_rot s x n H)) (conj (fun v => obj_bwrap s x n v H) (proj2 (obj_shift_rot s x n H)))).
+Qed.
+Print Assumptions C17_objects_shift_rotate.
+
+Theorem C17_objects_division : forall s x y s' q r, (x < length s)%nat -> (y < length s)%nat ->
+  (o_udivmod s x y = Ok (s', (q, r)) ->
+     exists qv rv, udivmod (oget s x) (oget s y) = Ok (qv, rv) /\ fresh_pair s s' q r qv rv) /\
+  (o_idivmod s x y = Ok (s', (q, r)) ->
+     exists qv rv, idivmod (oget s x) (oget s y) = Ok (qv, rv) /\ fresh_pair s s' q r qv rv) /\
+  (o_tdivmod s x y = Ok (s', (q, r)) ->
+     exists qv rv, tdivmod (oget s x) (oget s y) = Ok (qv, rv) /\ sext s s' /\
+       (length s <= q < length s')%nat /\ (length s <= r < length s')%nat /\ oget s' q = qv /\ oget s' r = rv).
+Proof.
+  exact (fun s x y s' q r Hx Hy => conj (obj_udivmod s x y s' q r) (conj (obj_idivmod s x y s' q r Hx Hy) (obj_tdivmod s x y s' q r Hx Hy))).
+Qed.
+Print Assumptions C17_objects_division.
+
+Theorem C17_objects_pow_scalar : forall s x y m,
+  (forall s' r, o_ipow s x y = Ok (s', r) -> exists v, ipow (oget s x) (oget s y) = Ok v /\ fresh_res s (s', r) v) /\
+  (forall s' r, o_upowmod s x y m = Ok (s', r) ->
+     exists v, upowmod (oget s x) (oget s y) (oget s m) = Ok v /\ fresh_res s (s', r) v) /\
+  (forall base uo, sext s (fst (o_tobase s x base uo)) /\ snd (o_tobase s x base uo) = tobase (oget s x) base uo) /\
+  (sext s (fst (o_tointeger s x)) /\ snd (o_tointeger s x) = tointeger (oget s x)) /\
+  (fst (o_compress s x) = s /\
+   snd (o_compress s x) = match compress (oget s x) with inl i => inl i | inr _ => inr x end).
+Proof.
+  exact (fun s x y m => conj (obj_ipow s x y) (conj (obj_upowmod s x y m) (obj_scalar s x))).
+Qed.
+Print Assumptions C17_objects_pow_scalar.
